@@ -471,7 +471,7 @@ def leaf_supported(x, raw_l: str, nums: list) -> bool:
         return False
     if isinstance(x, str):
         ok_extra = set()
-        if real_re.search(r'none|undefined|nan', raw_l):
+        if real_re.search(r'none|undefined|nan|nil', raw_l):   # literals a repair table may turn into null
             ok_extra.add("null")
         for tok in real_re.findall(r'[A-Za-z0-9]+', x):
             t = tok.lower()
@@ -833,6 +833,7 @@ class C11(Prop):
                     used = [k for k in "selr" if after["strategy_success"].get(STRAT_LETTERS[k].lower())
                             != before["strategy_success"].get(STRAT_LETTERS[k].lower())]
                 info = {"op": t[0], "raw": raw, "strat": t[2], "ctor": ctor, "S": S, "result": r, "error": err,
+                        "inst": chs.index(ch), "epoch": sum(1 for l in out_lines if l.split(" ")[0] in ("tables", "tune", "schema", "newsub", "new")),
                         "used_by_stats": used}
                 if err is not None:
                     emit(line, f"raise:{type(err).__name__} {calls}", info)
@@ -1026,7 +1027,8 @@ class C11(Prop):
                 elif r.valid and r.strategy_used == FS.STRICT and c != 1.0:
                     out.append(Violation("strict_has_full_confidence", "1.0", repr(c), idx))
             # "the plain and enhanced folds agree on validity and structure"
-            key = (x["raw"], x["strat"], x["ctor"], id(S))
+            # same instance, same configuration (no table / strategy-list / schema change in between)
+            key = (x["raw"], x["strat"], x["ctor"], id(S), x["inst"], x["epoch"])
             pairs.setdefault(key, {})[x["op"]] = (idx, r)
         for key, d in pairs.items():
             if "fold" in d and "foldx" in d:
